@@ -197,6 +197,9 @@ pub enum Stratum {
     Mixed,
     /// 2-3 clients loading concurrently under a seeded interleaving.
     Concurrent,
+    /// One long history (60-150 operations, up to 100 loads over 4-6 images): whatever
+    /// accumulates per process (a cache with a capacity, a counter) within reach of one run.
+    LongHistory,
 }
 
 const K_SHORT: u32 = 1;
@@ -344,6 +347,7 @@ pub fn stratum_of(run_index: u64, v0_len: usize, rng: &mut Rng) -> Stratum {
         0 => Stratum::Quiet,
         1..=3 => Stratum::Transparent,
         4 => Stratum::Concurrent,
+        5 if run_index % 64 == 3 => Stratum::LongHistory,
         _ => Stratum::Mixed,
     }
 }
@@ -368,7 +372,18 @@ pub fn generate(seed: u64, run_index: u64, infos: &[PoolInfo]) -> Scenario {
         imgs[0] = 0;
     }
     let n_clients = rng.urange(1, 3);
-    let n_ops = rng.urange(3, 12);
+    let long = stratum == Stratum::LongHistory;
+    let n_ops = if long { rng.urange(60, 150) } else { rng.urange(3, 12) };
+    let max_loads = if long { 100 } else { 6 };
+    if long {
+        // more images, small ones (a long history of 1-byte reads on a 140 KB file tells nothing)
+        for _ in 0..3 {
+            let cand = rng.urange(0, infos.len() - 1);
+            if infos[cand].len < 20_000 {
+                imgs.push(cand);
+            }
+        }
+    }
     // A second, different image so that a replacement can change what is on disk.
     if imgs.len() == 1 && infos.len() > 1 && rng.chance(3, 4) {
         let mut other = rng.urange(0, infos.len() - 1);
@@ -400,6 +415,14 @@ pub fn generate(seed: u64, run_index: u64, infos: &[PoolInfo]) -> Scenario {
                 }
             }
         }
+        Stratum::LongHistory => {
+            kinds = K_SHORT | K_REPLACE | K_REPLACE_MID | K_RESTART;
+            for k in [K_EINTR, K_HARD, K_OPENFAIL, K_DENY] {
+                if rng.chance(1, 3) {
+                    kinds |= k;
+                }
+            }
+        }
         Stratum::Mixed | Stratum::ByteSweep(_) => {
             for k in [
                 K_SHORT, K_EINTR, K_HARD, K_OPENFAIL, K_REPLACE_MID, K_DENY, K_RESTART, K_REPLACE,
@@ -416,7 +439,7 @@ pub fn generate(seed: u64, run_index: u64, infos: &[PoolInfo]) -> Scenario {
     }
     let density: u64 = match stratum {
         Stratum::Quiet | Stratum::Transparent => 0,
-        Stratum::Concurrent => 2,
+        Stratum::Concurrent | Stratum::LongHistory => 2,
         _ => *rng.pick(&[2, 4, 4, 6]),
     };
 
@@ -500,11 +523,14 @@ pub fn generate(seed: u64, run_index: u64, infos: &[PoolInfo]) -> Scenario {
         let r = rng.below(100);
         let client = rng.usize_below(n_clients);
         if r < 45 {
-            if loads >= 6 {
+            if loads >= max_loads {
                 continue_or_query(&mut ops, client, &mut rng);
                 continue;
             }
-            let plan = gen_plan(&mut rng, &infos[current], kinds, density, &imgs);
+            let mut plan = gen_plan(&mut rng, &infos[current], kinds, density, &imgs);
+            if long && plan.chunks.iter().any(|&c| c < 64) {
+                plan.chunks = vec![256]; // a hundred loads byte by byte tell nothing more than one
+            }
             if let Some((_, img)) = plan.replace_at {
                 current = img;
             }
@@ -580,6 +606,7 @@ pub fn generate(seed: u64, run_index: u64, infos: &[PoolInfo]) -> Scenario {
             Stratum::Transparent => "transparent".into(),
             Stratum::Mixed => "mixed".into(),
             Stratum::Concurrent => "concurrent".into(),
+            Stratum::LongHistory => "longhistory".into(),
         },
         n_clients,
         initial: imgs[0],
